@@ -105,11 +105,12 @@ theorem initState_facts (t0 : ℚ) (rs : Array ResRec) (mains : List σ)
   rw [this, Nat.zero_add] at d
   exact d
 
-/-- **`run(until=number)` from a well-scoped state is transparent up to the renaming of ids**: the statement of
-`SplitCfg.runUntilTime_transparent` with `Closed` and `FuelAlong` discharged, and `now < t` read off the normal return -/
-theorem runUntilTime_transparent_ws (body : σ → Resume → Burst ℚ σ) (fuel n : Nat) (t : ℚ) (s s' : KState ℚ σ) (v : Val)
+/-- **`run(until=number)` from a well-scoped state is transparent up to the renaming of ids**, under the run-level
+id-opacity hypothesis `SimAlong`: the statement of `SplitCfg.runUntilTime_transparent_run` with `Closed` and `FuelAlong`
+discharged, and `now < t` read off the normal return -/
+theorem runUntilTime_transparent_ws_run (body : σ → Resume → Burst ℚ σ) (fuel n : Nat) (t : ℚ) (s s' : KState ℚ σ) (v : Val)
     (hpos : 0 < s.events.size) (hws : WS I s) (hS : ScopedRun I body fuel s) (hs : SortedAg s) (hns : AllStopFree s)
-    (hB : BodySim (shAt s.events.size) (I.rn s.events.size) body)
+    (hsim : (SplitCfg.at s hpos t (I.rn s.events.size)).SimAlong body fuel s)
     (h : runUntilTime body fuel n t s = .returned v s') :
     s.now < t ∧ v = .none ∧ ∃ k sk, k < n ∧ stepN body fuel k s = .ok sk ∧
       s' = (SplitCfg.at s hpos t (I.rn s.events.size)).afterSentinel sk ∧
@@ -124,9 +125,23 @@ theorem runUntilTime_transparent_ws (body : σ → Resume → Burst ℚ σ) (fue
     rw [if_pos (not_lt.mp hc)] at h
     cases h
   let c : SplitCfg σ := SplitCfg.at s hpos t (I.rn s.events.size)
-  obtain ⟨hv, k, sk, hk, h1, h2, h3, _, h5, h6, h7⟩ := c.runUntilTime_transparent body fuel n s s' v rfl rfl hlt
-    (closed_of_ws c hws hs rfl rfl rfl) hs hns hB (fuelAlong_of_ws c body fuel hws hS) h
+  obtain ⟨hv, k, sk, hk, h1, h2, h3, _, _, h5, h6, h7⟩ := c.runUntilTime_transparent_run body fuel n s s' v rfl rfl hlt
+    (closed_of_ws c hws hs rfl rfl rfl) hs hns hsim (fuelAlong_of_ws c body fuel hws hS) h
   exact ⟨hlt, hv, k, sk, hk, h1, h2, h3, h5, h6, h7⟩
+
+/-- … and under the program-level hypothesis `BodySim` at the split index -/
+theorem runUntilTime_transparent_ws (body : σ → Resume → Burst ℚ σ) (fuel n : Nat) (t : ℚ) (s s' : KState ℚ σ) (v : Val)
+    (hpos : 0 < s.events.size) (hws : WS I s) (hS : ScopedRun I body fuel s) (hs : SortedAg s) (hns : AllStopFree s)
+    (hB : BodySim (shAt s.events.size) (I.rn s.events.size) body)
+    (h : runUntilTime body fuel n t s = .returned v s') :
+    s.now < t ∧ v = .none ∧ ∃ k sk, k < n ∧ stepN body fuel k s = .ok sk ∧
+      s' = (SplitCfg.at s hpos t (I.rn s.events.size)).afterSentinel sk ∧
+      (SplitCfg.at s hpos t (I.rn s.events.size)).Inv sk ∧ AllStopFree s' ∧
+      (∀ j, j < k → ∀ sj m rest, stepN body fuel j s = .ok sj → popMin sj.agenda = some (m, rest) →
+        (m.time < t ∨ (m.time = t ∧ m.prio = URGENT ∧ m.eid < s.eid))) ∧
+      (∀ m rest, popMin sk.agenda = some (m, rest) → ¬ (m.time < t ∨ (m.time = t ∧ m.prio = URGENT ∧ m.eid < s.eid))) :=
+  runUntilTime_transparent_ws_run body fuel n t s s' v hpos hws hS hs hns
+    (SplitCfg.simAlong_of_bodySim (SplitCfg.at s hpos t (I.rn s.events.size)) body hB fuel s) h
 
 end SplitWF
 
@@ -134,17 +149,17 @@ namespace SplitPlan
 open SplitWF
 variable {I : IdSt σ}
 
-/-- **split plans are transparent** (at least one event exists): the split execution ends in the state of `K`
-uninterrupted steps, transformed once per numeric stop (`stackT`), with some clock -/
-theorem plan_transparent (body : σ → Resume → Burst ℚ σ) (fuel budget : Nat)
-    (hB : ∀ u, 0 < u → BodySim (shAt u) (I.rn u) body) (plan : List Piece) (s0 S' : KState ℚ σ)
+/-- **split plans are transparent** (at least one event exists), under the run-level id-opacity hypothesis `PlanSim`: the
+split execution ends in the state of `K` uninterrupted steps, transformed once per numeric stop (`stackT`), with some clock -/
+theorem plan_transparent_run (body : σ → Resume → Burst ℚ σ) (fuel budget : Nat) (plan : List Piece) (s0 S' : KState ℚ σ)
     (h0 : WS I s0) (hs0 : SortedAg s0) (hns0 : AllStopFree s0) (hpos : 0 < s0.events.size) (hS : ScopedRun I body fuel s0)
+    (hsim : PlanSim I body fuel budget plan s0)
     (h : execPlan body fuel budget plan s0 = some S') :
     ∃ K sK cs x, stepN body fuel K s0 = .ok sK ∧ cs.length = numStops plan ∧ StackOK I cs sK ∧ S' = splitState cs sK x ∧
       S'.trace = sK.trace.map (rnObs (stackρ cs)) ∧ viewTrace S' = viewTrace sK ∧ viewProcs S' = viewProcs sK ∧
       AllStopFree S' ∧ SortedAg S' ∧ WS I S' ∧ WS I sK := by
-  have r0 : Rel I body fuel [] s0 s0 := ⟨h0, hS, trivial, ⟨s0.now, rfl⟩, hs0, hns0⟩
-  obtain ⟨K, sK, cs, h1, r, hl⟩ := execPlan_stack body fuel hB budget plan [] s0 s0 S' r0 hpos h
+  have r0 : Rel I body fuel [] s0 s0 := ⟨h0, hS, trivial, trivial, ⟨s0.now, rfl⟩, hs0, hns0⟩
+  obtain ⟨K, sK, cs, h1, r, hl⟩ := execPlan_stack body fuel budget plan [] s0 s0 S' r0 hpos hsim h
   obtain ⟨x, hx⟩ := r.eq
   refine ⟨K, sK, cs, x, h1, by simpa using hl, r.ok, hx, ?_, ?_, ?_, r.nostop, r.sorted, r.wsS, r.ws⟩
   · rw [hx]
@@ -152,16 +167,26 @@ theorem plan_transparent (body : σ → Resume → Burst ℚ σ) (fuel budget : 
   · rw [hx, viewTrace_splitState, viewTrace_stackT cs sK r.ok]
   · rw [hx, viewProcs_splitState, viewProcs_stackT cs sK r.ok]
 
-/-- **what a split plan lets the program and the harness observe is what the uninterrupted run lets them observe**, from
-every well-scoped state (with or without events) -/
-theorem plan_observations (body : σ → Resume → Burst ℚ σ) (fuel budget : Nat)
+/-- … and under the program-level hypothesis `BodySim` at every split index -/
+theorem plan_transparent (body : σ → Resume → Burst ℚ σ) (fuel budget : Nat)
     (hB : ∀ u, 0 < u → BodySim (shAt u) (I.rn u) body) (plan : List Piece) (s0 S' : KState ℚ σ)
+    (h0 : WS I s0) (hs0 : SortedAg s0) (hns0 : AllStopFree s0) (hpos : 0 < s0.events.size) (hS : ScopedRun I body fuel s0)
+    (h : execPlan body fuel budget plan s0 = some S') :
+    ∃ K sK cs x, stepN body fuel K s0 = .ok sK ∧ cs.length = numStops plan ∧ StackOK I cs sK ∧ S' = splitState cs sK x ∧
+      S'.trace = sK.trace.map (rnObs (stackρ cs)) ∧ viewTrace S' = viewTrace sK ∧ viewProcs S' = viewProcs sK ∧
+      AllStopFree S' ∧ SortedAg S' ∧ WS I S' ∧ WS I sK :=
+  plan_transparent_run body fuel budget plan s0 S' h0 hs0 hns0 hpos hS (planSim_of_bodySim body fuel budget hB plan s0) h
+
+/-- **what a split plan lets the program and the harness observe is what the uninterrupted run lets them observe**, from
+every well-scoped state (with or without events), under the run-level hypothesis -/
+theorem plan_observations_run (body : σ → Resume → Burst ℚ σ) (fuel budget : Nat) (plan : List Piece) (s0 S' : KState ℚ σ)
     (h0 : WS I s0) (hs0 : SortedAg s0) (hns0 : AllStopFree s0) (hS : ScopedRun I body fuel s0)
+    (hsim : PlanSim I body fuel budget plan s0)
     (h : execPlan body fuel budget plan s0 = some S') :
     ∃ K sK, stepN body fuel K s0 = .ok sK ∧ viewTrace S' = viewTrace sK ∧ viewProcs S' = viewProcs sK ∧
       S'.procs.length = sK.procs.length := by
   by_cases hpos : 0 < s0.events.size
-  · obtain ⟨K, sK, cs, x, h1, _, _, _, _, h6, h7, _⟩ := plan_transparent body fuel budget hB plan s0 S' h0 hs0 hns0 hpos hS h
+  · obtain ⟨K, sK, cs, x, h1, _, _, _, _, h6, h7, _⟩ := plan_transparent_run body fuel budget plan s0 S' h0 hs0 hns0 hpos hS hsim h
     refine ⟨K, sK, h1, h6, h7, ?_⟩
     have := congrArg List.length h7
     simpa [viewProcs] using this
@@ -171,5 +196,14 @@ theorem plan_observations (body : σ → Resume → Burst ℚ σ) (fuel budget :
     refine ⟨0, s0, rfl, ?_, ?_, by rw [e]⟩
     · unfold viewTrace; rw [d, c]; rfl
     · unfold viewProcs; rw [e, b]; rfl
+
+/-- … and under the program-level hypothesis -/
+theorem plan_observations (body : σ → Resume → Burst ℚ σ) (fuel budget : Nat)
+    (hB : ∀ u, 0 < u → BodySim (shAt u) (I.rn u) body) (plan : List Piece) (s0 S' : KState ℚ σ)
+    (h0 : WS I s0) (hs0 : SortedAg s0) (hns0 : AllStopFree s0) (hS : ScopedRun I body fuel s0)
+    (h : execPlan body fuel budget plan s0 = some S') :
+    ∃ K sK, stepN body fuel K s0 = .ok sK ∧ viewTrace S' = viewTrace sK ∧ viewProcs S' = viewProcs sK ∧
+      S'.procs.length = sK.procs.length :=
+  plan_observations_run body fuel budget plan s0 S' h0 hs0 hns0 hS (planSim_of_bodySim body fuel budget hB plan s0) h
 
 end SplitPlan
